@@ -1,4 +1,4 @@
-import Model.StmtIR
+import Model.StmtSyntax
 /-! # C02Arms — the arm templates of the assignment closures, and the acceptance test
 
 Every regenerated entry (`Gen.C02*`) is *classified* from the function it was found in and the
